@@ -696,6 +696,8 @@ func ruleBTRec(c *Ctx) {
 	// the literal: stores of codec and offset into a record field entry
 	rfT, rfOff, rfCodec := recordFieldRoles(P)
 	var offVal, codecVal ssa.Value
+	var offStores []*ssa.Store
+	var codecBase ssa.Value
 	for _, b := range fn.Blocks {
 		for _, in := range b.Instrs {
 			st, ok := in.(*ssa.Store)
@@ -707,24 +709,93 @@ func ruleBTRec(c *Ctx) {
 					switch fieldName(fa.X.Type(), fa.Field) {
 					case rfOff:
 						offVal = st.Val
+						offStores = append(offStores, st)
 					case rfCodec:
 						codecVal = st.Val
+						codecBase = fa.X
 					}
 				}
 			}
 		}
 	}
 	ophi, _ := offVal.(*ssa.Phi)
-	if tphi == nil || ophi == nil || tphi.Block() != ophi.Block() {
-		c.Unk(key+"/offset~type", P.pos(bc.Pos()), "offset and field type are not a pair of phis in one block (idiom not understood)")
+	// the offset that reaches each incoming edge of the type phi: the matching edge of an offset phi in the same
+	// block, or (an entry initialised with the sentinel and overwritten where the field is found) the last store
+	// to the entry's offset on the way to that edge
+	var oEdges []ssa.Value
+	sameEntry := false
+	switch {
+	case tphi != nil && ophi != nil && tphi.Block() == ophi.Block() && len(tphi.Edges) == len(ophi.Edges):
+		oEdges = ophi.Edges
+		sameEntry = true
+	case tphi != nil && len(offStores) > 0:
+		// a composite-literal temporary copied as a whole into the entry counts as the entry, at the copy
+		entryOf := func(v ssa.Value) (ssa.Value, *ssa.BasicBlock) {
+			a, ok := v.(*ssa.Alloc)
+			if !ok {
+				return v, nil
+			}
+			for _, r := range referrersOf(a) {
+				if ld, ok := r.(*ssa.UnOp); ok && ld.Op == token.MUL {
+					for _, rr := range referrersOf(ld) {
+						if st, ok := rr.(*ssa.Store); ok && st.Val == ssa.Value(ld) {
+							if dst, ok := st.Addr.(*ssa.Alloc); ok {
+								return dst, st.Block()
+							}
+						}
+					}
+				}
+			}
+			return v, nil
+		}
+		type offSt struct {
+			val ssa.Value
+			blk *ssa.BasicBlock
+		}
+		var sts []offSt
+		var base ssa.Value
+		one := true
+		for _, st := range offStores {
+			b, at := entryOf(st.Addr.(*ssa.FieldAddr).X)
+			if at == nil {
+				at = st.Block()
+			}
+			if base != nil && b != base {
+				one = false
+			}
+			base = b
+			sts = append(sts, offSt{st.Val, at})
+		}
+		if one {
+			cb, _ := entryOf(codecBase)
+			sameEntry = cb == base
+			for _, pred := range tphi.Block().Preds {
+				var found ssa.Value
+				for b := pred; b != nil && found == nil; b = b.Idom() {
+					for _, st := range sts {
+						if st.blk == b {
+							found = st.val // the last one in block order wins
+						}
+					}
+				}
+				oEdges = append(oEdges, found)
+			}
+		}
+	}
+	if tphi == nil || len(oEdges) != len(tphi.Edges) {
+		c.Unk(key+"/offset~type", P.pos(bc.Pos()), "offset and field type are not a pair of phis in one block, nor an entry's offset overwritten where the type is taken (idiom not understood)")
 		return
 	}
-	okPair := len(tphi.Edges) == len(ophi.Edges)
+	okPair := true
 	why := ""
 	var sentinel ssa.Value
 	var sfSource ssa.Value
 	for i := range tphi.Edges {
-		te, oe := tphi.Edges[i], ophi.Edges[i]
+		te, oe := tphi.Edges[i], oEdges[i]
+		if oe == nil {
+			okPair, why = false, "no offset is stored on one way to the codec construction"
+			continue
+		}
 		if isNilConst(te) {
 			if _, isC := oe.(*ssa.Const); !isC {
 				okPair, why = false, "a field without a Go type does not get the constant sentinel offset"
@@ -743,7 +814,7 @@ func ruleBTRec(c *Ctx) {
 	if ex, ok := codecVal.(*ssa.Extract); ok && ex.Tuple == ssa.Value(bc) && ex.Index == 0 {
 		cok = true
 	}
-	c.Check(cok && offVal == ssa.Value(ophi), key+"/entry", P.pos(bc.Pos()), "the entry stores the codec built for that type together with that offset", "the field entry does not pair the codec with the offset of the same struct field")
+	c.Check(cok && sameEntry && (ophi == nil || offVal == ssa.Value(ophi)), key+"/entry", P.pos(bc.Pos()), "the entry stores the codec built for that type together with that offset", "the field entry does not pair the codec with the offset of the same struct field")
 	// sf comes from typ.Field(i) of the builder's own typ, via the name map
 	srcOK := false
 	if sfSource != nil {
@@ -1071,29 +1142,59 @@ func ruleBTSubNil(c *Ctx) {
 					if !isCodecIface(P, f.Type()) {
 						continue
 					}
-					// blocks that assign a non-nil value to the field
-					assigns := map[*ssa.BasicBlock]bool{}
-					for _, r := range referrersOf(a) {
-						fa, ok := r.(*ssa.FieldAddr)
-						if !ok || fa.Field != i {
-							continue
-						}
-						for _, rr := range referrersOf(fa) {
-							if s, ok := rr.(*ssa.Store); ok && s.Addr == ssa.Value(fa) && !mayBeNil(s.Val) {
-								assigns[s.Block()] = true
+					// per block, in instruction order: a store of a non-nil value to the field sets it, a store of the
+					// zero value to the whole literal (how a composite literal with omitted fields starts) clears it
+					type eff struct{ set, clear bool } // the net effect of a block: last one wins
+					effect := map[*ssa.BasicBlock]eff{}
+					whole := false
+					wholeWhat := ""
+					for _, b := range fn.Blocks {
+						var e eff
+						for _, in := range b.Instrs {
+							st, ok := in.(*ssa.Store)
+							if !ok {
+								continue
+							}
+							if st.Addr == ssa.Value(a) {
+								if k, isK := st.Val.(*ssa.Const); isK && k.Value == nil {
+									e = eff{clear: true}
+								} else if ld, isLd := st.Val.(*ssa.UnOp); isLd && ld.Op == token.MUL {
+									// a copy of a composite-literal temporary: set exactly when the temporary's field was
+									tmp, isTmp := ld.X.(*ssa.Alloc)
+									if !isTmp {
+										whole = true
+										continue
+									}
+									has := false
+									for _, r := range referrersOf(tmp) {
+										if fa, ok := r.(*ssa.FieldAddr); ok && fa.Field == i {
+											for _, rr := range referrersOf(fa) {
+												if s2, ok := rr.(*ssa.Store); ok && s2.Addr == ssa.Value(fa) && !mayBeNil(s2.Val) {
+													has = true
+												}
+											}
+										}
+									}
+									e = eff{set: has, clear: !has}
+								} else {
+									whole = true
+									wholeWhat = " (" + st.String() + ")"
+								}
+								continue
+							}
+							if fa, ok := st.Addr.(*ssa.FieldAddr); ok && fa.X == ssa.Value(a) && fa.Field == i {
+								if mayBeNil(st.Val) {
+									e = eff{clear: true}
+								} else {
+									e = eff{set: true}
+								}
 							}
 						}
-					}
-					// whole-struct stores (*a = other literal) are not understood: skip the literal
-					whole := false
-					for _, r := range referrersOf(a) {
-						if s, ok := r.(*ssa.Store); ok && s.Addr == ssa.Value(a) {
-							whole = true
-						}
+						effect[b] = e
 					}
 					key := fmt.Sprintf("%s/literal[%s]/%s", fnKey(fn), typeKey(T), f.Name())
 					if whole {
-						c.Unk(key, P.pos(a.Pos()), "the literal is assigned as a whole: field-wise definite assignment does not apply")
+						c.Unk(key, P.pos(a.Pos()), "the literal is assigned as a whole from another value: field-wise definite assignment does not apply"+wholeWhat)
 						continue
 					}
 					out := map[*ssa.BasicBlock]bool{}
@@ -1114,7 +1215,12 @@ func ruleBTSubNil(c *Ctx) {
 					for changed := true; changed; {
 						changed = false
 						for _, b := range fn.Blocks {
-							v := inOf(b) || assigns[b]
+							v := inOf(b)
+							if effect[b].set {
+								v = true
+							} else if effect[b].clear {
+								v = false
+							}
 							if v != out[b] {
 								out[b] = v
 								changed = true
